@@ -4,9 +4,12 @@ tools/confirm_mutant.sh (crate / test name / features are read from the demo REA
 campaign spec for the confirmed ones."""
 import glob, json, os, re, subprocess, sys
 suffix, out = sys.argv[1], sys.argv[2]
+only = sys.argv[3].split(",") if len(sys.argv) > 3 else None
 spec = []
 for d in sorted(glob.glob(f"/tmp/wt/*{suffix}.out")):
     pid = os.path.basename(d)[:3]
+    if only and pid not in only:
+        continue
     wt = d[:-4]
     for v in "AB":
         vd = f"{d}/{v}"
